@@ -55,9 +55,39 @@ def model(cells, sst=(), links=(), tcols=(), names=(), sheet="Sheet1", opts=None
             "opts": dict(OPT_DEFAULT, **(opts or {}))}
 
 
+def norm_link(h):
+    """a hyperlink of a model in full form (the short form {"ext": False, "val": location} is still accepted)"""
+    if "hasloc" in h:
+        return dict({"tip": "", "disp": ""}, **h)
+    if h["ext"]:
+        return dict(h, hasloc=False, loc="", tip=h.get("tip", ""), disp=h.get("disp", ""))
+    return dict(h, val="", hasloc=True, loc=h["val"], tip=h.get("tip", ""), disp=h.get("disp", ""))
+
+
+def link(r, c, target=None, loc=None, tip="", disp=""):
+    return {"r": r, "c": c, "ext": target is not None, "val": target or "", "hasloc": loc is not None, "loc": loc or "",
+            "tip": tip, "disp": disp}
+
+
+def link_models():
+    """hyperlinks with r:id only, location only, and both (an external URL with a fragment, what Excel writes for
+    https://..#frag), with and without tooltip / display, entity-carrying values, on one and on several cells"""
+    url = "https://example.com/docs/page.html?x=1&y=2"
+    out = [model([cell(1, 1, "str", "go")], links=[link(1, 1, url, "section-2")]),
+           model([cell(1, 1, "str", "go")], links=[link(1, 1, url, "section-2", "tip <1> & \"two\"", "shown text")]),
+           model([], links=[link(1, 1, url), link(1, 2, None, "Sheet1!A1"), link(2, 1, url, "section-2"),
+                            link(2, 2, "http://h.example/a?b=1&c=<2>", "'A&B'!$C$3", "t&t"),
+                            link(3, 5, "file:///C:/dir/it's%20here.xlsx", "Sheet2!B2", "", "d"),
+                            link(7, 3, None, "'it''s <1>'!$B$2", "place tip"), link(9, 1, "mailto:a@b.example?subject=x&body=y")]),
+           model([cell(2, 2, "n", "1", fbits("1"))], links=[link(2, 2, url + "&z=\u00e9", "frag\u00e9", "tip\u00e9")],
+                 opts={"ent": "numeric", "indent": True})]
+    return out
+
+
 def builder_model(m):
-    """the model as pydec.build_xlsx wants it: xfs as ids + the custom formats"""
+    """the model as pydec.build_xlsx wants it: xfs as ids + the custom formats, hyperlinks in full form"""
     b = dict(m)
+    b["sheets"] = [dict(sh, links=[norm_link(h) for h in sh["links"]]) for sh in m["sheets"]]
     b["numfmts"] = [{"id": x["id"], "code": x["code"]} for x in m["xfs"] if x["custom"]]
     b["xfs"] = [x["id"] for x in m["xfs"]]
     return b
@@ -249,6 +279,10 @@ def random_models(rng, count):
                 links.append({"r": 1, "c": 1, "ext": True, "val": "http://h.example/" + rtext(rng, 6, UNI[:40]) + "?a=1&b=" + rtext(rng, 3, UNI[:30])})
             if rng.random() < 0.4:
                 links.append({"r": 2, "c": 2, "ext": False, "val": "'" + name.replace("'", "''") + "'!A1"})
+            if rng.random() < 0.4:          # an external target with a fragment: r:id and location on one element
+                for k in range(rng.randint(1, 3)):
+                    links.append(link(3 + k, 1 + k, "https://h.example/" + rtext(rng, 5, UNI[:40]) + "?x=1&y=" + str(k),
+                                      rtext(rng, 6), rtext(rng, 4) if rng.random() < 0.5 else "", rtext(rng, 4) if rng.random() < 0.3 else ""))
             tcols = []
             if rng.random() < 0.3:
                 tcols = list(dict.fromkeys(rtext(rng, rng.randint(1, 8)) for _k in range(rng.randint(1, 4))))
@@ -320,7 +354,8 @@ def pair(case_id, label, ext, ev):
         links = []
         for h in xs["links"]:
             o = lib.get((h["r"], h["c"]))
-            links.append(dict(h, op=bool(o and o["hl"]), ourl=o["url"] if o else "", oloc=bool(o and o["loc"])))
+            links.append(dict(h, op=bool(o and o["hl"]), ourl=o["url"] if o else "", oloc=bool(o and o["loc"]),
+                              otip=o["tip"] if o else ""))
         se = {"a": "Sheet", "case": case_id, "sheet": si, "name": xs["name"], "links": links, "tcols": xs["tcols"],
               "otcols": sorted(t["cols"] for t in os_["tables"])}
         items, seen = [], set()
@@ -388,7 +423,8 @@ def self_check(m, ext):
                 and (not (a["f"]["k"] == "shared" and a["f"]["ht"]) or a["f"]["toks"] == b["f"]["toks"])
             if not same:
                 bad("cell %s%d: %r vs %r" % (build_xlsx.colname(a["c"]), a["r"], a, b))
-        if [(h["r"], h["c"], h["ext"], h["val"]) for h in ms["links"]] != [(h["r"], h["c"], h["ext"], h["val"]) for h in xs["links"]]:
+        key = lambda h: (h["r"], h["c"], h["ext"], h["val"], h["hasloc"], h["loc"], h["tip"])
+        if [key(norm_link(h)) for h in ms["links"]] != [key(h) for h in xs["links"]]:
             bad("hyperlinks")
         if ([list(ms["tcols"])] if ms["tcols"] else []) != xs["tcols"]:
             bad("table columns")
@@ -508,7 +544,7 @@ def run(chk):
         vlib.tlc_mc("MC_Decode", "MC_Decode_thorough.cfg", workers=4, must_take=MUST_TAKE + ["AddSstItem"], timeout=3600, check=chk)
         vlib.tlc_mc("MC_Decode", "MC_Decode_shared_thorough.cfg", workers=4, must_take=MUST_TAKE + ["AddSharedBlock", "SetOpt"],
                     timeout=3600, check=chk)
-    models = kf_models() + inline_run_models() + tlc_models(chk) + random_models(chk.rng, 300 if quick else 6000)
+    models = kf_models() + inline_run_models() + link_models() + tlc_models(chk) + random_models(chk.rng, 300 if quick else 6000)
     scripts = [{"kind": "gen", "model": m} for m in models] + [{"kind": "corpus", "path": p} for p in corpus_paths(chk)]
     stats = judge(chk, scripts)
     chk.extra["cells_judged"] = stats
